@@ -272,7 +272,10 @@ func replayC03(i int, raw json.RawMessage, seed int64) hx.Result {
 	nt := ntOf(&r)
 	if res := runC03(&r, seed, i); res != nil {
 		res.NT = nt
-		if r.Refuse {
+		if r.Refuse && r.Proto.Lim != "" && r.Proto.Lim != "none" {
+			res.Key = "C03/build-or-refuse/len=" + r.Proto.Lim + "/" + strings.TrimPrefix(res.Key, "C03/")
+			res.What = fmt.Sprintf("the proto-event's field %s is over the 255 limit, so it is not an event of room version %s: %s", r.Proto.Lim, r.Ver, res.What)
+		} else if r.Refuse {
 			res.Key = "C03/build-or-refuse/num=" + r.Proto.Num + "/" + strings.TrimPrefix(res.Key, "C03/")
 			res.What = fmt.Sprintf("EventBuilder.Build handed out an event for a proto-event whose content holds a number of class %q (%s), which is not an event of room version %s; the event then fails: %s",
 				r.Proto.Num, numValue(r.Proto.Num), r.Ver, res.What)
@@ -296,6 +299,9 @@ func ntOf(r *rec) string {
 	if isDomainless(r.Ver) {
 		dl = "|domainless"
 	}
+	if r.Proto.Lim != "" && r.Proto.Lim != "none" {
+		dl += fmt.Sprintf("|len=%s|refuse=%v", r.Proto.Lim, r.Refuse)
+	}
 	if r.Proto.Num != "" && r.Proto.Num != "none" {
 		dl += fmt.Sprintf("|num=%s|refuse=%v", r.Proto.Num, r.Refuse)
 	}
@@ -315,6 +321,37 @@ func algoOf(ver string) int {
 		return 4
 	}
 	return 5
+}
+
+// refusalsAgree: Build returned err (and possibly the event p it refused).
+func refusalsAgree(r *rec, impl gmsl.IRoomVersion, p gmsl.PDU, buildErr error) *hx.Result {
+	if p == nil {
+		return nil
+	}
+	class := func(err error) string {
+		if err == nil {
+			return "accepted"
+		}
+		if ve, ok := err.(gmsl.EventValidationError); ok {
+			return fmt.Sprintf("refused(persistable=%v)", ve.Persistable)
+		}
+		return "refused"
+	}
+	want := class(buildErr)
+	var cf, up error
+	if pan := guard(func() { cf = gmsl.CheckFields(p) }); pan != "" {
+		return fail("C03/panic/after=Build/CheckFields", "CheckFields panics on the event Build handed over with an error: "+pan, nil, pan)
+	}
+	if got := class(cf); got != want {
+		return fail("C03/refusal/"+r.Proto.Lim+r.Proto.Num+"/CheckFields", "Build refused the event but CheckFields on the very event it handed over says otherwise", want, got)
+	}
+	if pan := guard(func() { _, up = impl.NewEventFromUntrustedJSON(append([]byte(nil), p.JSON()...)) }); pan != "" {
+		return fail("C03/panic/after=Build/NewEventFromUntrustedJSON", "the untrusted parse panics on the JSON of the refused event: "+pan, nil, pan)
+	}
+	if got := class(up); got != want {
+		return fail("C03/refusal/"+r.Proto.Lim+r.Proto.Num+"/NewEventFromUntrustedJSON", "Build refused the event but the untrusted parse of its JSON says otherwise", want, got)
+	}
+	return nil
 }
 
 // unobserved repeats the behaviour on a freshly built event WITHOUT reading any accessor between the calls
@@ -388,7 +425,10 @@ func runC03(r *rec, seed int64, idx int) *hx.Result {
 	b := protoOf(r.Ver, &r.Proto, seed)
 	p, err := b.build(r.Ver)
 	if err != nil && r.Refuse {
-		return nil // Build either refuses (no event: nothing to hold) or hands out an event that satisfies every clause
+		// Build either refuses (no event: nothing to hold) or hands out an event that satisfies every clause.
+		// Build may hand the event over next to the error of its field check: then the field check and the untrusted
+		// parse of that very event must say the same thing.
+		return refusalsAgree(r, impl, p, err)
 	}
 	if err != nil {
 		return fail("C03/build/error", fmt.Sprintf("EventBuilder.Build fails (room version %s): %v", r.Ver, err), nil, err.Error())
